@@ -43,8 +43,22 @@ fn u8_matchers_canonical(c: &[u8]) -> bool {
     true
 }
 
+/// Match-and-skip of an OBJECT IDENTIFIER is by the whole content: an identifier does not match a
+/// proper prefix, suffix or extension of itself (two different encodings would decode alike).
+fn oid_match_canonical(c: &[u8]) -> bool {
+    if c.is_empty() || c.len() > 40 || c[c.len() - 1] >= 0x80 { return true }
+    let me = Oid(c.to_vec());
+    let mut others: Vec<Vec<u8>> = vec![c[..c.len() - 1].to_vec(), c[1..].to_vec(), { let mut v = c.to_vec(); v.push(1); v }, { let mut v = vec![0x2a]; v.extend_from_slice(c); v }, vec![]];
+    others.retain(|o| o != c);
+    let skip = |content: &[u8]| Constructed::decode(tlv(0x06, content).as_slice().into_source(), Mode::Der, |cons| me.skip_if(cons)).is_ok();
+    skip(c) && others.iter().all(|o| !skip(o))
+}
+
 fn leaf_case(em: &mut Emitter, ty: u8, c: &[u8]) {
     em.case(501, &[num_arg(ty), bytes_arg(c)], || {
+        if ty == 12 && catch(|| oid_match_canonical(c)) != Some(true) {
+            return (Ints::new().n(-9), Oracle::Fail("object-identifier-match-accepts-a-different-encoding".into()), true)
+        }
         if ty == 5 && catch(|| u8_matchers_canonical(c)) != Some(true) {
             return (Ints::new().n(-9), Oracle::Fail("a-u8-entry-point-accepts-a-non-canonical-encoding-or-rejects-the-canonical-one".into()), true)
         }
